@@ -30,6 +30,23 @@ pub(crate) fn get_file_system_operations(
     operations
 }
 
+/// Brings the artifact directory in line with `artifacts` and returns the number of
+/// files written or deleted.
+pub(crate) fn write_artifacts_to_disk(
+    artifacts: &[ArtifactPathAndContent],
+    artifact_directory: &Path,
+    file_system_state: &mut Option<FileSystemState>,
+) -> LocationFreeDiagnosticResult<usize> {
+    let operations = get_file_system_operations(artifacts, artifact_directory, file_system_state);
+    let result = apply_file_system_operations(&operations, artifacts);
+    if result.is_err() {
+        // Only some of the operations were applied, so file_system_state no longer
+        // describes the directory. Forget it: the next compile recreates everything.
+        *file_system_state = None;
+    }
+    result
+}
+
 #[tracing::instrument(skip_all)]
 pub(crate) fn apply_file_system_operations(
     operations: &[FileSystemOperation],
